@@ -274,9 +274,12 @@ def split_reflection(run, i, decls):
     from . import c20
 
     counter = [0]
-    tree = c20.build_tree(run.rng("modtree", i), decls, "main.fcp", 0, counter)
+    # every other split gives ALL its modules the same file name in different directories
+    tree = c20.build_tree(run.rng("modtree", i), decls, "main.fcp", 0, counter, same_names=(i % 8 == 1))
     if not counter[0]:
         return
+    if i % 8 == 1 and counter[0] >= 2:
+        run.count("split_schemas_with_same_named_modules")
     root = env.scratch("c12mod")
     try:
         files = c20.write_tree(root, tree)
@@ -399,7 +402,7 @@ def run(run):
 
 
 def conclude(run):
-    run.require("wide_integer_schemas", "cli_encode_runs", "split_schema_reflections", "reflections_after_other_uses", "reflections", "records_faithful", "records_encoded", "records_round_tripped", "metas_checked",
+    run.require("split_schemas_with_same_named_modules", "wide_integer_schemas", "cli_encode_runs", "split_schema_reflections", "reflections_after_other_uses", "reflections", "records_faithful", "records_encoded", "records_round_tripped", "metas_checked",
                 "feature/impl:signal-block", "feature/param:range", "feature/param:unit", "feature/decl:service", "feature/impl:extension-field")
     feats = {k[8:]: v for k, v in run.counters.items() if k.startswith("feature/")}
     for k in [k for k in run.counters if k.startswith("feature/")]:
